@@ -1,7 +1,53 @@
 import Hs.Model.Vx
-namespace Hs.Drv.C18
+import Hs.Model.CApi
+import Hs.Model.COwn
+import Hs.Gen.CApi
+import Hs.Drv.C17
+/-
+  Driver glue for C18 (not part of any theorem).
 
-/-- requests `C18 <cmd> ...` (tokens after the property id) -/
-def handle (_ts : List String) : String := "bad-request"
+  `C18 hist <call>*`        same as `C17 hist` (null-argument runs: the model's answer to the same calls)
+  `C18 own <call>*`         the ownership bookkeeping of the history: `ok v:<live value ids> s:<live string
+                            ids> f:<live filter ids>` or `bad <class>` when the allocator's view rejects it
+  `C18 nulltable <fn:i>*`   the harness's (function, pointer parameter) pairs must be exactly those of the
+                            translated inventory (the two exempt destroy functions left out)
+-/
+namespace Hs.Drv.C18
+open Hs Hs.Vx Hs.CApi Hs.COwn
+
+def sortNats (l : List Nat) : List Nat :=
+  l.foldl (fun acc k => (Hs.Drv.C17.insertSorted k () acc)) [] |>.map (·.1)
+
+def showBad : Bad → String
+  | .doubleFree => "doubleFree" | .useAfterFree => "useAfterFree" | .wrongDestroy => "wrongDestroy"
+  | .dangling => "dangling" | .reissued => "reissued"
+
+def ownReq (ts : List String) : String :=
+  match Hs.Drv.C17.pOps ts [] with
+  | none => "bad-request"
+  | some ops =>
+    let tr := traceOf CState.init { snext := 0, bnext := 0 } ops
+    match run Heap.empty tr with
+    | .error b => "bad " ++ showBad b
+    | .ok h =>
+      let ids (c : Cls) := sortNats ((h.live.filter (fun o => o.cls == c)).map (·.id))
+      let sh (l : List Nat) := ",".intercalate (l.map toString)
+      s!"ok v:{sh (ids .val)} s:{sh (ids .str)} f:{sh (ids .flt)}"
+
+def nullTableReq (ts : List String) : String :=
+  let want := Gen.CApi.fns.flatMap fun f =>
+    if f.name == "haystack_value_destroy" || f.name == "haystack_string_destroy" then []
+    else (List.range f.ptrParams.length).map fun i => s!"{f.name}:{i}"
+  let missing := want.filter (fun n => !ts.contains n)
+  let extra := ts.filter (fun n => !want.contains n)
+  if missing.isEmpty && extra.isEmpty then s!"ok {want.length}"
+  else "missing:" ++ ",".intercalate missing ++ " extra:" ++ ",".intercalate extra
+
+def handle (ts : List String) : String :=
+  match ts with
+  | "hist" :: rest => Hs.Drv.C17.histReq rest
+  | "own" :: rest => ownReq rest
+  | "nulltable" :: rest => nullTableReq rest
+  | _ => "bad-request"
 
 end Hs.Drv.C18
